@@ -100,7 +100,40 @@ Definition py_rstrip_chars (cs s : string) : string :=
   of_ascii_list (rstripl (fun c => mem_ascii c cs) (ascii_list s)).
 
 (* ------------------------------------------------------------------------------------ *)
+(* line helpers shared by the code model and the specification *)
+
+Fixpoint all_chars (p : ascii -> bool) (s : string) : bool :=
+  match s with EmptyString => true | String c s' => p c && all_chars p s' end.
+Definition is_lwsp (c : ascii) : bool := Ascii.eqb c " "%char || Ascii.eqb c (ascii_of_nat 9).
+(* the line starts with a space or a tab: an RFC 822 continuation line *)
+Definition is_cont_line (l : string) : bool :=
+  match l with String c _ => is_lwsp c | EmptyString => false end.
+(* s.rstrip("\r"): trailing CRs belong to the line terminator *)
+Fixpoint chomp_cr (s : string) : string :=
+  match s with
+  | EmptyString => EmptyString
+  | String c s' => match chomp_cr s' with
+                   | EmptyString => if Ascii.eqb c cr then EmptyString else String c EmptyString
+                   | r => String c r
+                   end
+  end.
+
+(* ------------------------------------------------------------------------------------ *)
 (* _parse_flat_metadata *)
+
+(* `line[:1] in (" ", "\t")` with the characters T1 read *)
+Definition code_is_cont (l : string) : bool :=
+  match l with String c _ => existsb (Ascii.eqb c) c11_cont_chars | EmptyString => false end.
+(* the unfolding pre-pass: `lines[-1] = lines[-1].rstrip("\r") + line` for a continuation line
+   (never for the first line), else `lines.append(line)`; [cur] is lines[-1] *)
+Fixpoint unfold_from (cur : string) (ls : list string) : list string :=
+  match ls with
+  | [] => [cur]
+  | l :: ls' => if code_is_cont l then unfold_from (py_rstrip_chars c11_unfold_rstrip cur ++ l) ls'
+                else cur :: unfold_from l ls'
+  end.
+Definition unfold_lines (ls : list string) : list string :=
+  match ls with [] => [] | l :: ls' => unfold_from l ls' end.
 
 Record pstate := mkP { p_name : option string; p_version : option string; p_reqs : list string;
                        p_index_error : bool }.
@@ -148,7 +181,7 @@ Definition p_step (s : pstate) (line : string) : pstate :=
   if p_index_error s then s else run_chain c11_branches s line (lower line).
 
 Definition parse_loop (contents : string) : pstate :=
-  fold_left p_step (psplit c11_line_sep contents) p_init.
+  fold_left p_step (unfold_lines (psplit c11_line_sep contents)) p_init.
 
 Inductive exc :=
   | MetadataError        (* req_compile.errors.MetadataError *)
@@ -206,39 +239,18 @@ Definition outcome (vok rok : string -> bool) (f : flat_res) : res dist :=
 (* _find_dist_info_metadata: the two regular expressions as string predicates *)
 
 Definition dsuf : string := ".dist-info/METADATA".
+Definition regex_root_text : string := "^{}-[^/]+\.dist-info/METADATA$".
 Definition regex_own_text : string := "^(.+/)?{}-.+\.dist-info/METADATA$".
 Definition regex_any_text : string := "^.*\.dist-info/METADATA".
 
-(* the project name is pasted into the regex unescaped: `.` is a wild card, any other regex
-   meta character puts the name outside the model *)
-Inductive pitem := PLit (c : ascii) | PAny.
-Definition regex_meta : string := "^$*+?{}[]\|()".
-Fixpoint pat_of_project (p : string) : option (list pitem) :=
+(* the project name is pasted into the regexes through re.escape: it matches literally *)
+Fixpoint strip_prefix (p s : string) : option string :=
   match p with
-  | EmptyString => Some []
-  | String c p' =>
-      if mem_ascii c regex_meta then None else
-      match pat_of_project p' with
-      | None => None
-      | Some l => Some ((if Ascii.eqb c "."%char then PAny else PLit c) :: l)
-      end
-  end.
-
-Fixpoint skip_cont (s : string) : string :=
-  match s with String c s' => if is_contb c then skip_cont s' else s | EmptyString => EmptyString end.
-
-Fixpoint match_name (pat : list pitem) (s : string) : option string :=
-  match pat with
-  | [] => Some s
-  | it :: pat' =>
-      match s with
-      | EmptyString => None
-      | String c s' =>
-          match it with
-          | PLit d => if Ascii.eqb c d then match_name pat' s' else None
-          | PAny => if Ascii.eqb c nl then None else match_name pat' (skip_cont s')
-          end
-      end
+  | EmptyString => Some s
+  | String c p' => match s with
+                   | String d s' => if Ascii.eqb d c then strip_prefix p' s' else None
+                   | EmptyString => None
+                   end
   end.
 
 (* `.+\.dist-info/METADATA$` : [started] = at least one character of `.+` consumed *)
@@ -248,22 +260,34 @@ Fixpoint mid_suffix (s : string) (started : bool) : bool :=
      | EmptyString => false
      | String c s' => if Ascii.eqb c nl then false else mid_suffix s' true
      end.
+(* `[^/]+\.dist-info/METADATA$` : the negated class also matches a newline *)
+Fixpoint root_suffix (s : string) (started : bool) : bool :=
+  (started && (String.eqb s dsuf || String.eqb s (dsuf ++ String nl EmptyString)))
+  || match s with
+     | EmptyString => false
+     | String c s' => if Ascii.eqb c "/"%char then false else root_suffix s' true
+     end.
+(* `^{project}-[^/]+\.dist-info/METADATA$` : the wheel's own directory at the root of the archive *)
+Definition root_match (p s : string) : bool :=
+  match strip_prefix p s with
+  | Some (String c r) => Ascii.eqb c "-"%char && root_suffix r false
+  | _ => false
+  end.
 (* `{project}-.+\.dist-info/METADATA$` *)
-Definition tail_match (pat : list pitem) (s : string) : bool :=
-  match match_name pat s with
+Definition tail_match (p s : string) : bool :=
+  match strip_prefix p s with
   | Some (String c r) => Ascii.eqb c "-"%char && mid_suffix r false
   | _ => false
   end.
 (* `(.+/)` then the tail, scanning for the `/` *)
-Fixpoint own_scan (pat : list pitem) (s : string) (started : bool) : bool :=
+Fixpoint own_scan (p s : string) (started : bool) : bool :=
   match s with
   | EmptyString => false
   | String c s' =>
       if Ascii.eqb c nl then false
-      else (Ascii.eqb c "/"%char && started && tail_match pat s') || own_scan pat s' true
+      else (Ascii.eqb c "/"%char && started && tail_match p s') || own_scan p s' true
   end.
-Definition own_match (pat : list pitem) (s : string) : bool :=
-  tail_match pat s || own_scan pat s false.
+Definition own_match (p s : string) : bool := tail_match p s || own_scan p s false.
 
 (* `^.*\.dist-info/METADATA` with re.match *)
 Fixpoint any_match (s : string) : bool :=
@@ -278,7 +302,8 @@ Inductive find_res := Found (entry : string) | NotFound | RegexUnmodelled.
 Definition interp_regex (project : string) (r : string * bool) : option (string -> bool) :=
   match r with
   | (text, true) =>
-      if String.eqb text regex_own_text then option_map own_match (pat_of_project project) else None
+      if String.eqb text regex_root_text then Some (root_match project)
+      else if String.eqb text regex_own_text then Some (own_match project) else None
   | (text, false) =>
       if String.eqb text regex_any_text then Some any_match else None
   end.
@@ -354,21 +379,9 @@ Definition extract_whl (vok rok : string -> bool) (basename : string) (a : archi
 (* ------------------------------------------------------------------------------------ *)
 (* Specification: METADATA read as an RFC 822 message *)
 
-(* one trailing CR belongs to the line terminator *)
-Fixpoint chomp_cr (s : string) : string :=
-  match s with
-  | EmptyString => EmptyString
-  | String c EmptyString => if Ascii.eqb c cr then EmptyString else s
-  | String c s' => String c (chomp_cr s')
-  end.
-Definition is_lwsp (c : ascii) : bool := Ascii.eqb c " "%char || Ascii.eqb c (ascii_of_nat 9).
-Definition is_cont_line (l : string) : bool :=
-  match l with String c _ => is_lwsp c | EmptyString => false end.
 (* field-name = 1*<any CHAR, excluding CTLs, SPACE, and ":"> *)
 Definition ftext (c : ascii) : bool :=
   let n := nat_of_ascii c in (33 <=? n) && (n <=? 126) && negb (Ascii.eqb c colon).
-Fixpoint all_chars (p : ascii -> bool) (s : string) : bool :=
-  match s with EmptyString => true | String c s' => p c && all_chars p s' end.
 Definition field_split (l : string) : option (string * string) :=
   match ppartition colon l with
   | (n, true, v) => match n with
@@ -429,47 +442,11 @@ Definition sel_step (s : pstate) (f : string * string) : pstate :=
 Definition select_fields (fs : list (string * string)) : flat_res :=
   finish (fold_left sel_step fs p_init).
 
-(* ---- the guards of the partial theorem (all decidable, computed from the text) ---- *)
-
-Definition selected_name (n : string) : bool :=
-  String.eqb n "name" || String.eqb n "version" || String.eqb n "requires-dist".
-Definition prefix_like (l : string) : bool :=
-  let ll := lower l in
-  startswith ll "name:" || startswith ll "version:" || startswith ll "requires-dist:".
-(* nothing after the header block looks like one of the three fields *)
-Definition no_headerlike_body (t : string) : bool :=
-  forallb (fun l => negb (prefix_like l)) (body_lines t).
-(* no Name/Version/Requires-Dist field of the header block is continued on a following line *)
-Fixpoint no_folded_in (hl : list string) (cur_selected : bool) : bool :=
-  match hl with
-  | [] => true
-  | l :: hl' =>
-      let l' := chomp_cr l in
-      if is_cont_line l' then negb cur_selected && no_folded_in hl' cur_selected
-      else match field_split l' with
-           | Some (n, _) => no_folded_in hl' (selected_name (lower n))
-           | None => no_folded_in hl' false
-           end
-  end.
-Definition no_folded (t : string) : bool := no_folded_in (header_lines t) false.
-(* the value of every Name/Version field of the header block is free of ':' *)
-Definition has_colon (s : string) : bool := existsb (Ascii.eqb colon) (ascii_list s).
-Definition single_colon_line (l : string) : bool :=
-  match field_split (chomp_cr l) with
-  | Some (n, v) => if String.eqb (lower n) "name" || String.eqb (lower n) "version" then negb (has_colon v) else true
-  | None => true
-  end.
-Definition single_colon_nv (t : string) : bool := forallb single_colon_line (header_lines t).
-
 (* ---- the wheel's own dist-info entry ---- *)
 Definition own_entry (project version : string) : string :=
   project ++ "-" ++ version ++ ".dist-info/METADATA".
 Definition no_newline (s : string) : bool := all_chars (fun c => negb (Ascii.eqb c nl)) s.
-(* distribution names as the wheel spec escapes them (ASCII subset): [A-Za-z0-9_.]+ *)
-Definition name_char (c : ascii) : bool :=
-  is_alpha_ascii c || is_digit c || Ascii.eqb c "_"%char || Ascii.eqb c "."%char.
-Definition conformant_name (p : string) : bool :=
-  match p with EmptyString => false | _ => all_chars name_char p end.
+Definition no_slash (s : string) : bool := all_chars (fun c => negb (Ascii.eqb c "/"%char)) s.
 
 (* boolean equality of flat results (used by the in-Coq recheck of T2 samples) *)
 Definition opt_str_eqb (a b : option string) : bool :=
@@ -488,8 +465,11 @@ Definition flat_res_eqb (a b : flat_res) : bool :=
   | _, _ => false
   end.
 
-(* ---- a sharper body guard: a Name:/Version:-looking body line is harmless when the header
-   block already declares that field (first-wins); a Requires-Dist:-looking one never is ---- *)
+(* ---- the guard of the partial theorem (decidable, computed from the text): the code keeps
+   reading after the header block (the test-suite wants a Requires-Dist after a stray blank line
+   to be read), so a body line that looks like Requires-Dist: is taken as a requirement, and one
+   that looks like Name:/Version: is taken when the header block declares none (first wins).
+   Body lines are seen after the same unfolding as header lines. ---- *)
 Definition has_field (n : string) (fs : list (string * string)) : bool :=
   existsb (fun f => String.eqb (fst f) n) fs.
 Definition body_harmless (t : string) : bool :=
@@ -498,7 +478,7 @@ Definition body_harmless (t : string) : bool :=
     let ll := lower l in
     negb (startswith ll "requires-dist:")
     && (has_field "name" fs || negb (startswith ll "name:"))
-    && (has_field "version" fs || negb (startswith ll "version:"))) (body_lines t).
+    && (has_field "version" fs || negb (startswith ll "version:"))) (unfold_lines (body_lines t)).
 
 (* ------------------------------------------------------------------------------------ *)
 (* One process, many reads: files are written/replaced and wheels are read, in any order.
